@@ -37,6 +37,7 @@ import (
 	"os"
 	"sort"
 	"strings"
+	"sync/atomic"
 	"testing"
 	"time"
 
@@ -278,11 +279,21 @@ func c14RunE2E(prop string, cfg c14RunCfg) *c14Result {
 			// (bounded by progress, not by time)
 			w.mu.Lock()
 			limS, limP := w.nStarts+15, w.polls+cfg.pollsFor(2000)
-			for w.slowInFlight == 0 && w.nStarts < limS && w.polls < limP && time.Now().Before(watchdog) {
+			deadDrained := func() bool { // an instance that reported broken and then died is still there
+				for _, vm := range w.vms {
+					if dn := atomic.LoadInt64(&vm.deadNs); dn != 0 && vm.destroyed == 0 && time.Now().UnixNano() >= dn {
+						return true
+					}
+				}
+				return false
+			}
+			for w.slowInFlight == 0 && !deadDrained() && w.nStarts < limS && w.polls < limP && time.Now().Before(watchdog) {
 				w.cond.Wait()
 			}
 			if w.slowInFlight > 0 {
 				w.counters["restart_placed_during_slow_start"]++
+			} else if deadDrained() {
+				w.counters["restart_placed_while_drained_dead_instance_exists"]++
 			}
 			w.mu.Unlock()
 			time.Sleep(time.Duration(w.rnd(0, 3000)) * time.Microsecond)
@@ -500,7 +511,7 @@ func c14RunE2E(prop string, cfg c14RunCfg) *c14Result {
 			}
 			sig := fmt.Sprintf("C15:L3:instance-not-released:%s:worker=%s:%s", vm.kind, ws, ib)
 			switch vm.kind {
-			case "never-boots", "reports-broken", "crunch-run-missing", "broken-after", "arv-mount-deadlock":
+			case "never-boots", "reports-broken", "crunch-run-missing", "broken-after", "arv-mount-deadlock", "reports-broken-then-dead", "outage":
 				sig = fmt.Sprintf("C15:L4:faulty-instance-not-destroyed:%s:worker=%s:%s", vm.kind, ws, ib)
 			}
 			w.mu.Lock()
